@@ -2278,7 +2278,9 @@ RULE = ("base64/URI: every single byte, all short lengths, boundary patterns and
         "properties: flat maps and nested trees with = : # ! blanks backslashes unicode, java.util.Properties-style reader and writer written here; "
         "XML: element trees with attributes, text, repeated children, 3 attribute-prefix / content-name settings, xml.etree as reader, own writer (entities, CDATA, "
         "character references); TOML: generated documents (typed scalars, dotted keys, tables, arrays of tables, inline tables) with tomllib as the reference reader; "
-        "Lua: trees with all byte values in strings and keyword / non-identifier keys, a Lua data reader and writer written here; in-expression pairs; a sample "
+        "Lua: trees with all byte values in strings and keyword / non-identifier keys, a Lua data reader and writer written here; in-expression pairs; "
+        "decoder reuse: every in-expression decoder over several elements of one expression (blank, invalid-then-valid) and multi-file runs of the binary "
+        "with blank files, each input judged against its decoding alone; XML texts with same-named siblings separated by other elements at every depth; a sample "
         "of each through the real binary with its command line flags. A case is non-trivial when the codec had to quote / escape / nest (per section); distinct by input.")
 TRUSTED = [
     "Spec/Codecs.v (hand-written: form-urlencoded grammar and denotation, RFC 4180 field denotation, Lua short-string lexer and Name, the stated domains)",
